@@ -59,20 +59,24 @@ class PrecipitationStoppingCondition:
         data = self._getData(model)
         return data[n,p]
     
-    def _testCondition(self, model):
+    def _testCondition(self, model, n = None):
         '''
-        Private function only testing if stopping condition is satisfied based off current state of model
+        Private function only testing if stopping condition is satisfied based off state of model at iteration n
 
         Parameters
         ----------
         model : PrecipitateModel
+        n : int (optional)
+            Iteration number (defaults to current iteration)
 
         Returns bool for whether condition is satisfied or not
         '''
+        if n is None:
+            n = model.pData.n
         if self._condition == Inequality.GREATER_THAN:
-            return self._poll(model, model.pData.n) > self._value
+            return self._poll(model, n) > self._value
         else:
-            return self._poll(model, model.pData.n) < self._value
+            return self._poll(model, n) < self._value
     
     def testCondition(self, model):
         '''
@@ -87,12 +91,13 @@ class PrecipitationStoppingCondition:
 
             if self._isSatisfied:
                 n, time = model.pData.n, model.pData.time
-                if n > 0:
+                if n > 0 and not self._testCondition(model, n-1):
                     currVal, currTime = self._poll(model, n), time[n]
                     prevVal, prevTime = self._poll(model, n-1), time[n-1]
                     self._satisfiedTime = (currTime - prevTime) * (self._value - prevVal) / (currVal - prevVal) + prevTime
                 else:
-                    self._satisfiedTime = time[n]
+                    #No previous iteration, or condition was already satisfied there, so nothing to interpolate
+                    self._satisfiedTime = time[max(n-1, 0)]
 
     def isSatisfied(self):
         '''
